@@ -132,7 +132,7 @@ class Evaluator:
             if ck in ('IntegralToFloating', 'FloatingCast', 'IntegralCast', 'NoOp', 'LValueToRValue', 'FloatingToIntegral',
                       'ConstructorConversion', 'DerivedToBase', 'UncheckedDerivedToBase', 'FunctionToPointerDecay',
                       'ArrayToPointerDecay', 'IntegralToBoolean', 'FloatingToBoolean', 'PointerToBoolean', 'ToVoid',
-                      'UserDefinedConversion', 'BaseToDerived', 'NullToPointer'):
+                      'UserDefinedConversion', 'BaseToDerived', 'NullToPointer', 'BitCast'):
                 if ck == 'FloatingToIntegral':
                     return ('call', 'trunc', (self.E(e['e'], P, fr),))
                 return self.E(e['e'], P, fr)
@@ -140,6 +140,8 @@ class Evaluator:
         if k in ('int', 'float'):
             return self.literal(e)
         if k == 'bool':
+            return num(int(e['v']))
+        if k == 'char':
             return num(int(e['v']))
         if k == 'param':
             if e.get('foreign'):
@@ -274,6 +276,9 @@ class Evaluator:
             ty_ = str(e.get('t', '')).replace('const ', '')
             if self.vecmodel and ty_.startswith('std::vector<') and not [a for a in e['args'] if a.get('k') != 'defarg']:
                 return ('cvec', ())
+            if ty_.startswith('std::vector<') and len([a for a in e['args'] if a.get('k') != 'defarg']) == 2 and not self.vecmodel:
+                a2 = [a for a in e['args'] if a.get('k') != 'defarg']
+                return ('call', 'vec_range', (self.E(a2[0], P, fr), self.E(a2[1], P, fr)))
             if ty_.startswith('std::pair<') and len(e['args']) == 2:
                 return ('pair', self.E(e['args'][0], P, fr), self.E(e['args'][1], P, fr))
             if e['args'] and ty_ in self.prog.records and not (len(e['args']) == 1 and e.get('ctor', '') in ('void (const %s &)' % ty_, 'void (%s &&)' % ty_)):
@@ -473,6 +478,9 @@ class Evaluator:
                 old = P.locals.get((fr['id'], bt['id']), ('unk', 'uninitialised container'))
                 P.locals[(fr['id'], bt['id'])] = ('call', 'elemstore', (old, self.E(idx, P, fr), v))
                 return
+            # element of something reached through a pointer / reference (array[i] = v with array a parameter)
+            idx = t['idx'] if k == 'index' else t['args'][1]
+            P.events.append(('write-through', ('elem', self.E(base, P, fr), self.E(idx, P, fr)), loc, v))
             self.trace.writes.setdefault('*unknown', []).append(loc)
             return
         self.trace.writes.setdefault('*unknown', []).append(loc)
@@ -626,6 +634,7 @@ class Evaluator:
                     return ('unk', 'call ' + q)
                 return ('mcall', ot, n, args)
             self.trace.unknown_calls.append((q, loc))
+            P.events.append(('libcall', (n, args), loc))
             return ('call', 'lib:' + n, args)
         # ---- repository function
         self.trace.calls.append((q, loc))
